@@ -268,6 +268,8 @@ def main():
     extra = []
     if seed:
         extra += ["--smt-option", f"smt.random_seed={seed % 100000}"]
+    for mod in P.get("modules", []):      # properties confined to a few modules need not re-verify the parser
+        extra += ["--verify-only-module", mod]
     sc, ov, r, fn_ranges, lt = verify_tree(keep=keep, extra=extra)
     # a change that moves parser.rs outside the Verus subset must not take the properties that do not depend on the
     # parser with it: re-run without the parser overlay (parser.rs is then plain Rust that Verus ignores)
